@@ -3,7 +3,7 @@ import json
 import os
 
 from engine import rule, AnchorLost, VERIF
-from model import fn_of, trace, is_place, site, uses_of_local, const_value
+from model import fn_of, trace, is_place, site, uses_of_local, const_value, strace
 import common
 import deny
 
@@ -297,21 +297,25 @@ def r12_2(ctx):
     # the chunker wraps, not replaces: io::Error::new(kind, err) with err as payload
     ch = common.chunker(ctx.facts)
     nw = 0
-    for cn in ch["bodies"]:
-        if cn.file != ch["loop"].file:
+    csup = ch["sup"]
+    seen_sites = set()
+    for n, cn, t in csup.calls():
+        if cn.file != ch["loop"].file or (cn.id, n[1]) in seen_sites:
             continue
-        for bb, t in cn.calls():
-            f = fn_of(t) or {}
-            if f.get("def", "").startswith("std::io::Error::new"):
-                nw += 1
-                tr = trace(cn, t["args"][1])
-                ok = bool(tr.origin and tr.origin[0] == "call" and any(st[0] == "downcast" and st[1] == "Err" for st in tr.steps))
-                if not ok and cn.raw["def_kind"] == "Closure" and tr.origin and tr.origin[0] == "arg" and tr.origin[1] == 2 and all(st[0] == "use" for st in tr.steps):
-                    # `result.map_err(|err| io::Error::new(kind, err))`: the closure's argument is the Err payload
-                    for pb in lib.bodies:
-                        for pbb, pt in pb.calls():
-                            pf = fn_of(pt) or {}
-                            if cn.id in pf.get("closures", []) and pf.get("def") == "std::result::Result::<T, E>::map_err":
-                                ok = True
-                ctx.ob("chunker:wraps-parser-error", ok, site(cn, bb), "the parser/reader error is the payload of the InvalidData error (Display shows it)" if ok else "the chunker replaces the underlying error")
+        f = fn_of(t) or {}
+        if f.get("def", "").startswith("std::io::Error::new"):
+            seen_sites.add((cn.id, n[1]))
+            nw += 1
+            # the payload is the Err payload of a call's result, possibly handed through a wrapping helper
+            tr = strace(csup, n, t["args"][1])
+            ok = bool(tr.origin and tr.origin[0] == "call" and any(st[0] == "downcast" and st[1] == "Err" for st in tr.steps))
+            ltr = trace(cn, t["args"][1])
+            if not ok and cn.raw["def_kind"] == "Closure" and ltr.origin and ltr.origin[0] == "arg" and ltr.origin[1] == 2 and all(st[0] == "use" for st in ltr.steps):
+                # `result.map_err(|err| io::Error::new(kind, err))`: the closure's argument is the Err payload
+                for pb in lib.bodies:
+                    for pbb, pt in pb.calls():
+                        pf = fn_of(pt) or {}
+                        if cn.id in pf.get("closures", []) and pf.get("def") == "std::result::Result::<T, E>::map_err":
+                            ok = True
+            ctx.ob("chunker:wraps-parser-error", ok, csup.site(n), "the parser/reader error is the payload of the InvalidData error (Display shows it)" if ok else "the chunker replaces the underlying error")
     ctx.ob("chunker:wrap-sites", nw >= 1, site(ch["loop"]), f"{nw} io::Error::new site(s) in the chunker")
